@@ -4,6 +4,6 @@ From SV Require Import Base.Prelude Model.Pager.
 Require Extraction.
 Require Import ExtrOcamlBasic ExtrOcamlString.
 Extraction Language OCaml.
-Extraction "../ocaml/c07/model.ml" seq_run obs_items req_key accept_full accept_drop prop_full_ok
+Extraction "../ocaml/c07/model.ml" seq_run obs_items req_key accept_full accept_drop prop_full_ok prop_drop_ok
   good_script fail_point spec_stream spec_error_stream spec_requests script_pages
   e_timeout e_unexpected e_empty_plan e_pool e_broken.
